@@ -48,13 +48,7 @@ func c11Rules(p *core.Prog, r *core.Run) {
 	r.Analysed(funcNames(p, all)...)
 
 	// --- GRAMMAR
-	newBuilder := func(fn *ssa.Function) ssa.Value {
-		for _, s := range callSites(p, []*ssa.Function{fn}, `cryptobyte\.NewBuilder`) {
-			v, _ := s.Instr.(ssa.Value)
-			return v
-		}
-		return nil
-	}
+	newBuilder := func(fn *ssa.Function) ssa.Value { return builderRoot(p, fn) }
 	bt := normTokens(builderTokens(p, bytesFn, newBuilder(bytesFn), nil, 0))
 	// maximum_name_length: the one token that is computed
 	mnlRe := "u8:"
